@@ -62,6 +62,7 @@ type valResult struct {
 	Value2  []string `json:"value2,omitempty"` // Pair: the second variable
 	Value   []string `json:"value"`   // canonical rendering of the variable inside the Action (or after Run when it did not run)
 	SBU     bool     `json:"sbu"`     // SetByUser inside the Action
+	SBU2    bool     `json:"sbu2"`    // Pair "samevar": the flag of the second option
 	EnvLog  []string `json:"envlog"`  // custom types: calls at declaration time
 	FillLog []string `json:"filllog"` // custom types: calls during Run
 	Canon   map[string]canonTok `json:"canon"` // what strconv says about every token involved
@@ -275,6 +276,7 @@ func runValues(c valCase) (r valResult) {
 	var log []string
 	var read func() []string
 	var read2 func() []string
+	var sbu2 bool
 
 	app := cli.App("app", "")
 	app.ErrorHandling = flag.ContinueOnError
@@ -337,6 +339,10 @@ func runValues(c valCase) (r valResult) {
 			} else {
 				p = app.String(x)
 			}
+		}
+		if c.Pair == "samevar" {
+			// a second option -p stores into the very same variable (through the Ptr entry point), with a SetByUser flag of its own
+			app.StringPtr(p, cli.StringOpt{Name: "p pair", Value: d, SetByUser: &sbu2})
 		}
 		read = func() []string { return []string{*p} }
 	case c.Type == "int":
@@ -537,6 +543,7 @@ func runValues(c valCase) (r valResult) {
 	app.Action = func() {
 		r.Ran = true
 		r.SBU = sbu
+		r.SBU2 = sbu2
 		r.Value = read()
 		if read2 != nil {
 			r.Value2 = read2()
